@@ -19,6 +19,7 @@ EXPLANATION = (
     "(5) key extraction uses the Unicode-aware fast-path regex and falls back to escape decoding."
     ' Later additions: every generic rule of a FilterSet reaches the cache (no de-duplication in the entry points, C01.9); a rejected load leaves the stores untouched (C10.2); the bucket loops visit every selector.'
     ' Round 6: the three regex literals of key_from_selector are compared, as automata, with the CSS grammar (identifier characters; hex escape = 1-6 digits and one optional space); the hex value is read from the digits; every Some(key) is built from a Regex::find match; None is answered only under modelled conditions; the stores are probed with the names as given.'
+    ' Round 8: the three key regexes are compared as automata with the CSS identifier grammar in which every non-ASCII code point is an identifier character and a hex escape may end with a space, tab or form feed (F-C17-3 repaired); stores only grow (C16.4 borrowed).'
 )
 NOT_DECIDED = ("The concatenation of decoded pieces in key_from_selector's loop (value level); the grammar of the three regex "
                "literals and the hex conversion are decided, code points CSS maps to U+FFFD (0, surrogates, > 10FFFF) are sent "
